@@ -418,7 +418,9 @@ func fdScenario(k int) {
 			if v6 {
 				kind, typ = "icmp6", 129
 			}
-			f, ok := g.wait(&cur, func(f *fdFrame) bool { return f.info.Kind == kind && f.info.ICMP.Type == typ && f.info.ICMP.Rest == rest })
+			f, ok := g.wait(&cur, func(f *fdFrame) bool {
+				return f.info.Kind == kind && f.info.ICMP.Type == typ && f.info.ICMP.Rest == rest
+			})
 			if !ok {
 				dbg(k, a, act, peer)
 				missing++
@@ -445,7 +447,9 @@ func fdScenario(k int) {
 				kind = "tcp6"
 			}
 			sendTCP(syn)
-			f, ok := g.wait(&cur, func(f *fdFrame) bool { return f.info.Kind == kind && f.info.DstPort == sport && f.info.TCP.Flags&rfc.SYN != 0 })
+			f, ok := g.wait(&cur, func(f *fdFrame) bool {
+				return f.info.Kind == kind && f.info.DstPort == sport && f.info.TCP.Flags&rfc.SYN != 0
+			})
 			if !ok {
 				dbg(k, a, act, peer)
 				missing++
@@ -518,7 +522,9 @@ func fdScenario(k int) {
 			if v6 {
 				kind = "tcp6"
 			}
-			f, ok := g.wait(&cur, func(f *fdFrame) bool { return f.info.Kind == kind && f.info.DstPort == dport && f.info.TCP.Flags == rfc.SYN })
+			f, ok := g.wait(&cur, func(f *fdFrame) bool {
+				return f.info.Kind == kind && f.info.DstPort == dport && f.info.TCP.Flags == rfc.SYN
+			})
 			if !ok {
 				dbg(k, a, act, peer)
 				missing++
